@@ -226,9 +226,11 @@ def _pure_with_displays(e: ast.AST) -> bool:
         return all(_pure_with_displays(x) for x in e.elts)
     if isinstance(e, ast.Starred):
         return _pure_with_displays(e.value)
-    if isinstance(e, (ast.ListComp, ast.GeneratorExp)):
-        return _pure_with_displays(e.elt) and all(isinstance(g.target, ast.Name) and _pure_with_displays(g.iter) and all(_pure_with_displays(c) for c in g.ifs) for g in e.generators)
-    if isinstance(e, ast.Call) and isinstance(e.func, ast.Name) and e.func.id in ("range", "chain", "list", "tuple", "len") and not e.keywords:
+    if isinstance(e, (ast.ListComp, ast.GeneratorExp, ast.SetComp)):
+        return _pure_with_displays(e.elt) and all(isinstance(g.target, (ast.Name, ast.Tuple)) and _pure_with_displays(g.iter) and all(_pure_with_displays(c) for c in g.ifs) for g in e.generators)
+    if isinstance(e, ast.Set):
+        return all(_pure_with_displays(x) for x in e.elts)
+    if isinstance(e, ast.Call) and isinstance(e.func, ast.Name) and e.func.id in ("range", "chain", "list", "tuple", "len", "set", "frozenset", "zip", "enumerate", "sorted") and all(isinstance(k.value, ast.Constant) for k in e.keywords):
         return all(_pure_with_displays(a) for a in e.args)
     if isinstance(e, ast.Compare):
         return _pure_with_displays(e.left) and all(_pure_with_displays(c) for c in e.comparators)
